@@ -334,7 +334,6 @@ def replay(ctx, violations):
                 ctx.verdict('trace_' + (bad[0]['why'] if bad else 'accepted'), not bad, cls='%s:trace' % e['kind'],
                             detail='samples %r %r' % (s1, s2), vector=vec)
             else:
-                res = dict(call=vec['call'], p=vec['p'])
                 # rebuild the exported fields that check_vector needs from the spec again
                 full = export_one(vec['call'], zf)
                 check_vector(ctx, full, rng)
@@ -342,10 +341,15 @@ def replay(ctx, violations):
         os.unlink(zf)
 
 
+_EXPORT = []
+
+
 def export_one(call, zf):
-    """Re-export the single vector of `call` from the specification (replay)."""
-    res = run_tlc('MC_Priors', 'EX_Priors_thorough.cfg', env={'PRIORS_Z_FILE': zf}, workers=1)
-    for v in res.tagged('VEC'):
+    """Re-export the vector of `call` from the specification (replay); one TLC run serves all."""
+    if not _EXPORT:
+        res = run_tlc('MC_Priors', 'EX_Priors_thorough.cfg', env={'PRIORS_Z_FILE': zf}, workers=1)
+        _EXPORT.extend(res.tagged('VEC'))
+    for v in _EXPORT:
         if v['call'] == call:
             return v
     raise Machinery('call %r is not in the export config' % (call,))
